@@ -146,16 +146,28 @@ SetDefaultOutcomes(s, k, v) ==
 AppendArgs(k, v, r) == [k |-> k, v |-> v, after |-> FALSE, index |-> NoArg, pos |-> NoArg, replace |-> r]
 AppendOutcomes(s, k, v, r) == AddOutcomes(s, AppendArgs(k, v, r))
 
-\* MetadataObject.extend(items, replace): item by item; a failing item stops the loop and the
-\* already applied prefix stays (list.extend semantics).  items: sequence of <<k, v>>.
-RECURSIVE ExtendOutcomes(_, _, _)
-ExtendOutcomes(s, items, r) ==
+\* MetadataObject.extend(items, replace): item by item; when an item is refused (duplicate with replace = FALSE,
+\* a value the validator refuses) the whole call is refused and CHANGES NOTHING -- the items stored before it are
+\* taken out again.  (Until the defect hunt of round 7 this operator kept the applied prefix, as list.extend does;
+\* the property says "a rejected operation ... changes nothing" of extend as of every other operation, and the code
+\* was repaired.)  items: sequence of <<k, v>>.
+RECURSIVE ExtendRun(_, _, _)
+ExtendRun(s, items, r) ==
     IF items = <<>> THEN {Ok(s, <<"None">>)}
     ELSE LET first == AppendOutcomes(s, items[1][1], items[1][2], r)
          IN UNION { IF o.res = <<"None">>
-                    THEN ExtendOutcomes([order |-> o.order, vals |-> o.vals], Tail(items), r)
+                    THEN ExtendRun([order |-> o.order, vals |-> o.vals], Tail(items), r)
                     ELSE {o}
                     : o \in first }
+ExtendOutcomes(s, items, r) == {IF o.res = <<"None">> THEN o ELSE Ok(s, o.res) : o \in ExtendRun(s, items, r)}
+
+\* add_item(k, v, index = i) with an index list.insert() refuses: beyond sys.maxsize once `after' has added one to
+\* it ("huge": OverflowError), or not an integer ("float": TypeError).  Whatever else applies, nothing changes --
+\* in particular a key that was to be re-located is still there.
+BadIndexOutcomes(s, a) ==
+    LET E == (IF HasValidator /\ a.v = BadVal THEN {<<"Refused">>} ELSE {})
+             \cup (IF a.k \in Range(s.order) /\ ~a.replace THEN {<<"KeyError">>} ELSE {})
+    IN Unchanged(s, IF E # {} THEN E ELSE {IF a.kind = "huge" THEN <<"OverflowError">> ELSE <<"TypeError">>})
 
 \* SortableDict(initial): the constructor stores the initial items one by one (a dict is taken in its own
 \* order); it is the first step of a history or none
@@ -181,6 +193,7 @@ Outcomes(s, o) ==
       [] o.name = "append_default" -> AppendOutcomes(s, o.k, DefaultVal, o.replace)
       [] o.name = "extend"     -> ExtendOutcomes(s, o.items, o.replace)
       [] o.name = "ctor"       -> CtorOutcomes(s, o.items)
+      [] o.name = "add_bad_index" -> BadIndexOutcomes(s, o)
 
 AllVals == Vals \cup (IF HasValidator THEN {BadVal} ELSE {})
 
@@ -199,6 +212,7 @@ Ops ==
     \cup [name : {"extend"}, items : {<<<<k1, v1>>, <<k2, v2>>>> : k1 \in Keys, k2 \in Keys,
                                                   v1 \in AllVals, v2 \in Vals} \cup {<<>>},
           replace : BOOLEAN]
+    \cup [name : {"add_bad_index"}, k : Keys, v : AllVals, kind : {"huge", "float"}, replace : BOOLEAN]
     \cup [name : {"ctor"}, items : {<<<<k1, v1>>, <<k2, v2>>>> : k1 \in Keys, k2 \in Keys, v1 \in Vals, v2 \in Vals}]
 
 Cur == [order |-> order, vals |-> vals]
@@ -241,10 +255,10 @@ ContentMatch == Range(order) = DOMAIN vals
 LenMatch     == Len(order) = Cardinality(DOMAIN vals)
 ValsTyped    == \A k \in DOMAIN vals : vals[k] \in Vals \cup {DefaultVal}   \* a refused value is never stored
 
-\* a rejected operation changes nothing (extend excepted: prefix semantics, modelled above)
-IsError(r) == r[1] \in {"KeyError", "ValueError", "IndexError", "Refused"}
+\* a rejected operation changes nothing (extend included: all or nothing)
+IsError(r) == r[1] \in {"KeyError", "ValueError", "IndexError", "Refused", "OverflowError", "TypeError"}
 RejectedChangesNothing ==
-    [][(IsError(res') /\ op'.name # "extend") => (order' = order /\ vals' = vals)]_vars
+    [][IsError(res') => (order' = order /\ vals' = vals)]_vars
 
 \* replace keeps position unless a position is given; other keys never change relative order
 OthersKeepOrder ==
